@@ -96,6 +96,7 @@ Section Spec.
             end
         | None => (None, [])
         end
+    | Disable | Enable => (st, [])
     end.
 
   Fixpoint spec_from (sid : Z) (i : nat) (st : option sspec) (tr : list event) : option sspec * list output :=
@@ -109,6 +110,11 @@ Section Spec.
 
   (* the answers owed to the listen calls of session sid, in order *)
   Definition spec_delivery (sid : Z) (tr : list event) : list output := snd (spec_from sid 0%nat None tr).
+
+  (* with Disable / Enable in the history: an event triggered while event handling is disabled is dropped for every session
+     (it is not pending for anyone, ever); everything else, and every event triggered after Enable, is owed as above.
+     Event handling is enabled at the start. *)
+  Definition gspec_delivery (sid : Z) (tr : list event) : list output := spec_delivery sid (erase true tr).
 End Spec.
 
 (* the answers (of any run) that belong to session sid: the answered request is a Listen of sid in the trace *)
